@@ -33,6 +33,9 @@ class Decomp(Suite):
                 shape = gen.pick_shape(rng, k); k += 1
                 t = gen.tree_case(rng, n, shape, numbering=rng.choice(["sorted", "root0"]), coords="lattice")
                 out.append({"class": t["class"], "tree": t})
+                if t["n"] >= 3 and rng.random() < 0.6:
+                    d = rng.choice(["sort", "copy-edit", f"redirect:{rng.randrange(1, t['n'])}"])
+                    out.append({"class": t["class"] + "/derived-" + d.split(":")[0], "tree": t, "derive": d})
         # the shape classes the property names, with guaranteed quota
         for pids in ([-1], [-1, 0], [-1, 0, 1], [-1, 0, 1, 2, 3], [-1, 0, 0], [-1, 0, 0, 0], [-1, 0, 1, 1], [-1, 0, 1, 2, 2, 2],
                      [-1, 2, 0, 2], [-1, 0, 1, 1, 3, 3]):
@@ -47,6 +50,25 @@ class Decomp(Suite):
 
         t = gen.make_tree(case["tree"])
         res = {}
+        if case.get("derive"):
+            # multi-step: query the decomposition of a tree, THEN derive another tree from it; the derived
+            # tree must be decomposed according to its own topology
+            from swcgeom.core.tree_utils import redirect_tree, sort_tree
+
+            t.get_branches(); t.get_paths(); t.get_furcations(); t.get_tips(); BranchTree.from_tree(t)
+            d = case["derive"]
+            if d == "sort":
+                t = sort_tree(t)
+            elif d == "copy-edit":
+                t = t.copy()
+                kids0 = [i for i, p in enumerate(case["tree"]["pids"]) if p == 0]
+                leaf = max(range(case["tree"]["n"]), key=lambda i: (i not in case["tree"]["pids"], i))
+                if leaf != 0 and leaf not in kids0:
+                    t.ndata["pid"][leaf] = 0          # re-hang a tip directly under the root
+            else:
+                t = redirect_tree(t, int(d.split(":")[1]))
+        res["pids_eff"] = t.pid().tolist()
+        res["xyz_eff"] = t.xyz().astype(float).tolist()
         res["branches"] = [[int(n.id) for n in br] for br in t.get_branches()]
         res["paths"] = [[int(n.id) for n in p] for p in t.get_paths()]
         res["tips"] = [int(n.id) for n in t.get_tips()]
@@ -63,7 +85,7 @@ class Decomp(Suite):
     def lines(self, case, res):
         if "exc" in res:
             return []
-        t = case["tree"]
+        t = dict(case["tree"]); t["pids"] = res["pids_eff"]
         a = f"ids={gen.ints(range(t['n']))} pids={gen.ints(t['pids'])}"
         sl = lambda ls: ";".join(gen.ints(b).replace("_", "") for b in ls)
         return [("branches " + a, sl(res["branches"])), ("paths " + a, sl(res["paths"])),
@@ -71,9 +93,10 @@ class Decomp(Suite):
 
     def oracle(self, case, res):
         t = case["tree"]
-        pids, n = t["pids"], t["n"]
         if "exc" in res:
             return [("decomp-raises", f"{res['exc']}: {res.get('msg')}")]
+        t = dict(t); t["pids"] = res["pids_eff"]; t["xyz"] = res["xyz_eff"]
+        pids, n = t["pids"], t["n"]
         kids = kids_of(pids)
         nk = lambda i: len(kids.get(i, []))
         out = []
